@@ -513,8 +513,10 @@ impl AnnotationDataSet {
             if self.keys_len() == 0 {
                 return Self::from_csv_file(filename, self.config().clone());
             }
-            todo!("Merging CSV files for AnnotationDataSet is not supported yet");
-            //TODO
+            //TODO: not implemented yet; an error rather than a panic
+            return Err(StamError::OtherError(
+                "Merging CSV files for AnnotationDataSet is not supported yet",
+            ));
         }
 
         self.merge_json_file(filename)?;
